@@ -1,7 +1,7 @@
 (* C01 - analytic component derivatives equal the true derivatives.  Property theorems only (statements printed by Coq from the libraries Real/*Deriv.v).  DR g t0 p  :=  g t0 = fst p /\ is_derive g t0 (snd p);  every theorem says: along ANY differentiable curve of the inputs, the dual-number evaluation of the component model gives the value and the derivative - hence every partial derivative (C01_dual_number_tangent_is_the_partial_derivative) and, by composition, every chain of components (part 8) *)
 From Coq Require Import Reals ZArith Lra Lia Arith Bool List String.
 From Coquelicot Require Import Coquelicot.
-From OAS Require Import Scalar Rops Sums Deriv Dual DualProofs Drag DragDeriv Stress StressDeriv StressProofs Transfer TransferDeriv Loads LoadsDeriv Functionals FunctionalsDeriv Aero AeroDeriv PG PGDeriv Beam BeamTables BeamDeriv Geom GeomDeriv Misc MiscDeriv MultiSec MultiSecDeriv.
+From OAS Require Import Scalar Rops Sums Deriv Dual DualProofs Drag DragDeriv Stress StressDeriv StressProofs Transfer TransferDeriv Loads LoadsDeriv Functionals FunctionalsDeriv Aero AeroDeriv PG PGDeriv Beam BeamTables BeamDeriv Geom GeomDeriv Misc MiscDeriv MultiSec MultiSecDeriv Wingbox WingboxDeriv.
 Open Scope R_scope.
 
 Theorem C01_Stretch :
@@ -67,4 +67,58 @@ Theorem C01_GeomMultiJoin :
   DR3 Mn t0 mn -> DR (fun t : R => join_sep npx nye (Me t) (Mn t) r d) t0 (join_sep npx nye me mn r d).
 Proof. exact join_sep_DR. Qed.
 Print Assumptions C01_GeomMultiJoin.
+
+(* structures/section_properties_wingbox.py (partials declared by complex step): all eleven outputs, any number of airfoil points, at every admissible point (record wb_admissible: what the formulas divide by or take the root of) *)
+Theorem C01_SectionPropertiesWingbox :
+  forall (ns : nat) (dxu dyu dxl dyl : nat -> R) (toc0 : R) (Chord Spar Skin Toc Sw Theta : R -> R) 
+    (t0 : R) (chord spar skin toc sw theta : dual R),
+  DR Chord t0 chord ->
+  DR Spar t0 spar ->
+  DR Skin t0 skin ->
+  DR Toc t0 toc ->
+  DR Sw t0 sw ->
+  DR Theta t0 theta ->
+  wb_admissible ns dxu dyu dxl dyl toc0 (Chord t0) (Spar t0) (Skin t0) (Toc t0) (Sw t0) (Theta t0) ->
+  forall k : nat,
+  DR (fun t : R => wb_out ns dxu dyu dxl dyl toc0 (Chord t) (Spar t) (Skin t) (Toc t) (Sw t) (Theta t) k) t0
+    (wb_out ns (cst dxu) (cst dyu) (cst dxl) (cst dyl) (dinj toc0) chord spar skin toc sw theta k).
+Proof. exact wb_out_DR. Qed.
+Print Assumptions C01_SectionPropertiesWingbox.
+
+(* non-vacuity: a rectangular box satisfies wb_admissible *)
+Theorem C01_SectionPropertiesWingbox_admissible_points_exist :
+  wb_admissible 1 box_x box_yu box_x box_yl (12 / 100) 1 (1 / 100) (1 / 100) (12 / 100) 1 0.
+Proof. exact wb_admissible_box. Qed.
+Print Assumptions C01_SectionPropertiesWingbox_admissible_points_exist.
+
+(* htop / hbottom: the max-shift of the KS function is immaterial (lse_shift), so ties in the airfoil ordinates are not a non-smooth point *)
+Theorem C01_SectionPropertiesWingbox_extreme_fibre_needs_no_unique_maximum :
+  forall (n : nat) (F : R -> nat -> R) (t0 : R) (f : nat -> dual R),
+  DR1 F t0 f -> DR (fun t : R => ks_max n (F t)) t0 (ks_max n f).
+Proof. exact ks_max_DR. Qed.
+Print Assumptions C01_SectionPropertiesWingbox_extreme_fibre_needs_no_unique_maximum.
+
+(* structures/wingbox_geometry.py (partials declared by finite differences) *)
+Theorem C01_WingboxGeometry_streamwise_chords :
+  forall (nx1 : nat) (Mesh : R -> nat -> nat -> nat -> R) (t0 : R) (mesh : nat -> nat -> nat -> dual R),
+  DR3 Mesh t0 mesh ->
+  forall e : nat,
+  wg_chord_ok nx1 (Mesh t0) e ->
+  wg_chord_ok nx1 (Mesh t0) (S e) -> DR (fun t : R => wg_sw nx1 (Mesh t) e) t0 (wg_sw nx1 mesh e).
+Proof. exact wg_sw_DR. Qed.
+Print Assumptions C01_WingboxGeometry_streamwise_chords.
+
+Theorem C01_WingboxGeometry_fem_chords :
+  forall (nx1 : nat) (Mesh : R -> nat -> nat -> nat -> R) (t0 : R) (mesh : nat -> nat -> nat -> dual R)
+    (xu0 yu0 yl0 xun yun yln : R),
+  DR3 Mesh t0 mesh ->
+  yu0 - yl0 + (yun - yln) <> 0 ->
+  forall e : nat,
+  wg_chord_ok nx1 (Mesh t0) e ->
+  wg_chord_ok nx1 (Mesh t0) (S e) ->
+  wg_elem_ok nx1 Mesh t0 xu0 yu0 yl0 xun yun yln e ->
+  DR (fun t : R => wg_fem_chord nx1 (Mesh t) xu0 yu0 yl0 xun yun yln e) t0
+    (wg_fem_chord nx1 mesh (dinj xu0) (dinj yu0) (dinj yl0) (dinj xun) (dinj yun) (dinj yln) e).
+Proof. exact wg_fem_chord_DR. Qed.
+Print Assumptions C01_WingboxGeometry_fem_chords.
 
